@@ -63,24 +63,26 @@ func intFn(p orb.Point) ([2]int, bool) {
 	return [2]int{int(p[0]), int(p[1])}, p[0] == float64(int(p[0])) && p[1] == float64(int(p[1]))
 }
 
+// id projects a feature id: {present, identity of its numeric value} - the value is interned through its float64 bit
+// pattern (exact up to 2^53), so that ids beyond 32 bits can be compared by TLC
 func (in *mvtIntern) id(v interface{}) [2]int {
 	switch t := v.(type) {
 	case nil:
 		return [2]int{0, 0}
 	case int:
-		return [2]int{1, t}
+		return [2]int{1, in.bits.id(float64(t))}
 	case int64:
-		return [2]int{1, int(t)}
+		return [2]int{1, in.bits.id(float64(t))}
 	case uint32:
-		return [2]int{1, int(t)}
+		return [2]int{1, in.bits.id(float64(t))}
 	case uint64:
-		return [2]int{1, int(t)}
+		return [2]int{1, in.bits.id(float64(t))}
 	case float64:
-		return [2]int{1, int(t)}
+		return [2]int{1, in.bits.id(float64(int64(t)))}
 	case int8, int16, int32, uint, uint8, uint16:
-		return [2]int{1, int(reflect.ValueOf(v).Convert(reflect.TypeOf(int64(0))).Int())}
+		return [2]int{1, in.bits.id(float64(reflect.ValueOf(v).Convert(reflect.TypeOf(int64(0))).Int()))}
 	case float32:
-		return [2]int{1, int(t)}
+		return [2]int{1, in.bits.id(float64(int64(t)))}
 	}
 	return [2]int{0, 0}
 }
@@ -172,7 +174,7 @@ func mvtLens(in *mvtIntern, data []byte) ([]interface{}, error) {
 		for _, f := range l.Features {
 			id := [2]int{0, 0}
 			if f.Id != nil {
-				id = [2]int{1, int(*f.Id)}
+				id = [2]int{1, in.bits.id(float64(*f.Id))}
 			}
 			tags := []int{}
 			for _, x := range f.Tags {
@@ -264,7 +266,7 @@ func init() {
 				return mp
 			case 2:
 				ls := orb.LineString{}
-				for i := 0; i < 2+c.rng.Intn(5); i++ {
+				for i := 0; i < 1+c.rng.Intn(6); i++ { // a line may have a single vertex
 					ls = append(ls, pt(big))
 				}
 				return ls
@@ -272,7 +274,7 @@ func init() {
 				mls := orb.MultiLineString{}
 				for i := 0; i < 1+c.rng.Intn(3); i++ {
 					ls := orb.LineString{}
-					for j := 0; j < 2+c.rng.Intn(4); j++ {
+					for j := 0; j < 1+c.rng.Intn(5); j++ {
 						ls = append(ls, pt(big))
 					}
 					mls = append(mls, ls)
@@ -311,10 +313,11 @@ func init() {
 				return col
 			}
 		}
+		sharedInts := []int{1, 2, 3, 4, 5}
 		keyPool := []string{"a", "name", "B", "zz", "k1", "k10", "k2", "", "highway", "é"}
 		value := func() interface{} {
 			n := c.rng.Intn(4) // equal numbers of different Go types collide on purpose
-			switch c.rng.Intn(22) {
+			switch c.rng.Intn(23) {
 			case 0:
 				return []string{"x", "null", "1", "true"}[c.rng.Intn(4)]
 			case 1:
@@ -354,7 +357,9 @@ func init() {
 			case 18:
 				return map[string]interface{}{"k": n}
 			case 19:
-				return []int{n}
+				return sharedInts[:1+n] // slices of one array: same start, different lengths
+			case 22:
+				return sharedInts[:0]
 			case 20:
 				return fmt.Sprintf("%d", n)
 			default:
@@ -385,17 +390,30 @@ func init() {
 					if c.rng.Intn(4) == 0 {
 						idv = c.rng.Intn(3) // 0 is an id like any other
 					}
+					bigID := 0 // ids beyond 32 bits for the kinds that can hold them
+					if c.rng.Intn(5) == 0 {
+						bigID = []int{1 << 32, 1<<32 + 5, 5128740932, 1 << 35, 1<<53 - 1}[c.rng.Intn(5)]
+					}
 					switch c.rng.Intn(14) {
 					case 0:
 						f.ID = idv % 1000
 					case 1:
 						f.ID = int64(idv)
+						if bigID != 0 {
+							f.ID = int64(bigID)
+						}
 					case 2:
 						f.ID = uint32(idv)
 					case 3:
 						f.ID = float64(idv % 5000)
+						if bigID != 0 {
+							f.ID = float64(bigID)
+						}
 					case 4:
 						f.ID = uint64(idv)
+						if bigID != 0 {
+							f.ID = uint64(bigID)
+						}
 					case 5:
 						f.ID = int8(idv % 128)
 					case 6:
